@@ -78,6 +78,8 @@ pub enum Bind {
     Local(usize, usize),
     BuiltinProc(usize),
     BuiltinInt,
+    /// only in injected faults: a name that is bound to nothing (or to the wrong kind of entity)
+    Unbound,
 }
 
 #[derive(Clone, Debug)]
